@@ -728,15 +728,32 @@ func Run(r *mc.Run) {
 	r.SetExtra("entry_bodies", len(outer))
 	hs := make([]*harness, r.Workers)
 	var programs int64
+	// counterexamples found earlier (findings/C16) that the quick grammar bound
+	// does not reach are run first, in every tier
+	pinned := 0
+	for _, v := range r.Pinned() {
+		var p Program
+		if bs, err := json.Marshal(v.Input); err != nil || json.Unmarshal(bs, &p) != nil {
+			continue
+		}
+		pinned++
+		_, fs, _ := newHarness(func(n string) { r.Count(n, 1) }).runProgram(&p)
+		for _, f := range fs {
+			pc := p
+			r.Report(mc.Violation{Sig: f.sig, Detail: p.String() + "\n" + f.detail, Input: &pc})
+		}
+	}
+	r.SetExtra("pinned_counterexamples_rerun", pinned)
 	r.ForEach(len(outer), func(w, i int) {
 		if hs[w] == nil {
 			hs[w] = newHarness(func(n string) { r.Count(n, 1) })
 		}
 		h := hs[w]
-		n, visits := 0, 0
+		n, visits, expired := 0, 0, false
 		b.forEachCompletion(outer[i], l1, l2, func(p *Program, total int) {
 			visits++
-			if visits&127 == 1 && r.Expired() {
+			if expired || (visits&127 == 1 && r.Expired()) {
+				expired = true
 				return
 			}
 			if !depClassUseful(p) {
